@@ -344,10 +344,35 @@ PROPS["C12"] = {
 
 PROPS["C16"] = {
     "variants": ["v1"],
-    "lean": [],
+    "lean": ["Gengo.Props.C16"],
     "level": "proof",
-    "level_text": "(under construction)",
-    "level_note": "",
-    "rule": "",
-    "assumptions": [],
+    "level_text": "Model of deepcopy-gen: gengo's picture of a type (underlyingType, IsAssignable, hand-written DeepCopy/DeepCopyInto), the "
+                  "selection logic (Packages / Filter / copyableType / needsGeneration) and generateFor with doBuiltin, doMap, doSlice, "
+                  "doStruct, doPointer and the array loop, as a tree of the code shapes the generator can emit; one function renders the "
+                  "tree as the emitted text, another gives what each shape does to a value (trees with explicit addresses for pointer "
+                  "cells, slice backing arrays and maps; calls of methods outside the body are a parameter). Kernel-checked for every "
+                  "declaration environment, every type the generator accepts (no klog.Fatalf) and every well-typed value: the emitted "
+                  "body leaves a value deeply equal to the original, nil versus empty included, built from freshly allocated storage only "
+                  "(so copy and original share none), provided the methods it calls are good copies; DeepCopy() of reference types maps "
+                  "nil to nil; values of assignable types reach no storage; hand-written methods are never regenerated and are what the "
+                  "emitted code calls at every position; methods are generated for exactly the copyable types the tags select. PARTIAL: "
+                  "the theorem is modular - each generated method is correct given correct callees; the induction over call depth "
+                  "that closes the loop for mutually recursive struct types is not formalised. That the Go text of a shape has the "
+                  "modelled semantics is validated, not proved: the real deepcopy-gen's output must equal the model's rendering text for "
+                  "text, and the compiled output is run against a reflection oracle on random values.",
+    "level_note": "Trusted: Lean kernel; the model (method bodies compared with the real generator's gofmt output, white space dropped); Go's "
+                  "semantics of the emitted statements as transcribed in exec (validated by compiling and running the real output); the "
+                  "program generator's bookkeeping; reflect.DeepEqual and reflect-based address walks as the oracle; go build in GOPATH "
+                  "mode.",
+    "rule": "programs of 1..2 packages with 3..9 declarations: structs (builtin, pointer, slice, map, array, named struct, interface, "
+            "defined-type and hand-written-method members, embedded by value/pointer, self-referential through pointer/slice/map, "
+            "unexported builtin members), defined types over builtins / maps / slices / named structs, named interfaces with 1..2 "
+            "implementations, types with hand-written DeepCopy (pointer or value receiver) / DeepCopyInto, package-level tag or "
+            "type-level opt-in (closed under reference) / opt-out, tags in the doc block or the block above; the real deepcopy-gen runs "
+            "in a child process, the generated file is compiled with the input and a checker that copies 12 random values per "
+            "generated type (nil / empty / filled at every level). Distinct = distinct line set.",
+    "assumptions": ["inputs the generator accepts: no pointer to interface, no array outside struct members, no unexported or opted-out type "
+                    "referenced by a generated one, map keys assignable (everything else ends in klog.Fatalf or in code that cannot compile, "
+                    "which the property excludes)",
+                    "defined types over pointers (type P *T) are not generated: the emitted methods would have an invalid receiver"],
 }
